@@ -266,6 +266,48 @@ def check(ctx, corr, w, scale, with_model=True):
                 w.fail(f"{kind}(., {n}) not monotone: f({pa!r}) = {pv!r} < f({a!r}) = {v!r}", [pop, op], f"monotone-{kind}", kind)
         prev[(kind, n)] = (a, v, op)
 
+    # ---------------- round 9: fine-grid monotonicity probes for two steps the coarse grid above cannot see
+    # (a) Chi_square at the switch between its two polynomials, |Normal(p)| = (n-1)/4 (proved in the model for n = 9:
+    #     C17_chi2_junction_step_9); (b) Normal below 1e-9: sawtooth of `f = 1 - f` (D close to 1 is quantised by 1.1e-16).
+    # Both are genuine (findings C17-F2, C17-F3 in notes/reports/C17.md).  The step sizes always go to the evidence; they become
+    # oracle failures (reported as KNOWN-FINDING) once the lead has registered the ids in known_findings.jsonl.
+    registered = {f.get("id") for f in load_findings(ID)}
+    ops, meta = [], []
+    for n in range(3, 21):
+        for sgn in (-1.0, 1.0):
+            pc = 0.5 * math.erfc(sgn * (n - 1) / 4.0 / math.sqrt(2.0))          # upper tail probability of t = sgn (n-1)/4
+            for k in range(-24, 25):
+                ops.append(f"chi {hx(pc * (1 + k * 2.5e-9))} {n}"); meta.append((n, sgn))
+    out = w.run_ops(ops, with_model)
+    prev, nstep, worst = {}, 0, 0.0
+    for (n, sgn), op, line in zip(meta, ops, out):
+        corr.case(key=op)
+        v = vals(line)[0]
+        if (n, sgn) in prev and v > prev[(n, sgn)][0] + 1e-9:
+            nstep += 1
+            worst = max(worst, v - prev[(n, sgn)][0])
+            if "C17-F2" in registered:
+                w.fail(f"chi(., {n}) steps up by {v - prev[(n, sgn)][0]:.3g} at the polynomial switch |Normal(p)| = {(n - 1) / 4}: "
+                       f"{prev[(n, sgn)][1]} -> {prev[(n, sgn)][0]!r}, {op} -> {v!r}", [prev[(n, sgn)][1], op], "junction-chi", "chi")
+        prev[(n, sgn)] = (v, op)
+    corr.count("chi_junction_upward_steps", nstep)
+    corr.maxstat("max_chi_junction_upward_step", worst)
+    ops = ["normal " + hx(1e-12 * (1 + k * 1.35e-6)) for k in range(0, 200)]
+    out = w.run_ops(ops, with_model)
+    pv, pop, nstep, worst = None, None, 0, 0.0
+    for op, line in zip(ops, out):
+        corr.case(key=op)
+        v = vals(line)[0]
+        if pv is not None and v > pv + 1e-9:
+            nstep += 1
+            worst = max(worst, v - pv)
+            if "C17-F3" in registered:
+                w.fail(f"Normal not monotone near 1e-12: {pop} -> {pv!r} < {op} -> {v!r} (step {v - pv:.3g})", [pop, op],
+                       "sawtooth-normal", "normal")
+        pv, pop = v, op
+    corr.count("normal_sawtooth_upward_steps", nstep)
+    corr.maxstat("max_normal_sawtooth_step", worst)
+
     # ---------------- symmetry on the implementation
     ops = []
     sym = [rng.uniform(1e-9, 0.5) for _ in range(40 * scale)] + [0.0005, 0.025, 0.25]
@@ -366,6 +408,25 @@ def classify(ctx, failure):
             return None
         if 3 <= n <= 8 and (all(1 - a < 1e-6 for a in al) or (n == 3 and all(a < 1e-10 for a in al))):
             return "C17-F1"
+    if r.get("signature") == "junction-chi" and failure.site == "chi":
+        # C17-F2: upward step of a few 1e-5 where |Normal(p)| passes (n-1)/4 (switch between the two polynomials), n = 7, 8, 9
+        try:
+            ops = [o.split() for o in r["ops"]]
+            n = int(ops[0][2])
+            al = [hex2float(o[1]) for o in ops]
+        except (KeyError, IndexError, ValueError):
+            return None
+        pc = 0.5 * math.erfc(-(n - 1) / 4.0 / math.sqrt(2.0))
+        if 7 <= n <= 9 and all(abs(a - pc) < 1e-6 * pc for a in al):
+            return "C17-F2"
+    if r.get("signature") == "sawtooth-normal" and failure.site == "normal":
+        # C17-F3: Normal(alpha) for alpha < 1e-9: cancellation in f = 1 - f
+        try:
+            al = [hex2float(o.split()[1]) for o in r["ops"]]
+        except (KeyError, IndexError, ValueError):
+            return None
+        if all(a < 1e-9 for a in al):
+            return "C17-F3"
     return None
 
 
